@@ -20,7 +20,7 @@ import numpy as np
 import torch
 
 from vt import nf, symtorch
-from vt.cond import Infeasible
+from vt.cond import Infeasible, Undecided
 from vt.stubs import symbolic_factories
 from vt.runner import Ob, Refuted
 from vt.scenario import MkNum, _flat, el, scenario_ob
@@ -279,9 +279,110 @@ def scn_bdsk(T, n0, rho_mode, survival, pieces):
     return scn
 
 
+def ob_underflow_gradient(use_tip_states):
+    """The evaluation that first detects the underflow (plain pass gives -inf, switch to rescaling inside the same call) must already carry a
+    usable gradient: finite, and equal to the gradient of the always-rescaled evaluation of the same point.  Real autograd on a tree large
+    enough to underflow (JC69 caterpillar, 700 taxa): what the symbolic stop-gradient ghost cannot see (0 x inf in a backward pass)."""
+    def body():
+        import contracts.C03 as C03
+        torch.set_num_threads(1)
+        first = C03._caterpillar_model(700, False, use_tip_states)
+        p1 = first.tree_model._branch_lengths
+        p1.requires_grad = True
+        v1 = first()
+        if first.rescale is not True:
+            raise Undecided("the 700-taxon scenario no longer underflows on the plain pass")
+        v1.sum().backward()
+        g1 = p1.grad.detach().clone()
+        ref = C03._caterpillar_model(700, True, use_tip_states)
+        p2 = ref.tree_model._branch_lengths
+        p2.requires_grad = True
+        v2 = ref()
+        v2.sum().backward()
+        g2 = p2.grad.detach().clone()
+        if not bool(torch.isfinite(g1).all()):
+            raise Refuted("the evaluation that switches to rescaling returns %s but its gradient w.r.t. the branch lengths has %d non-finite entries (of %d)"
+                          % (v1.tolist(), int((~torch.isfinite(g1)).sum()), g1.numel()), witness={"tip_states": use_tip_states},
+                          replay={"kind": "custom", "contract": "C12", "func": "replay_underflow_gradient", "args": {"tip_states": use_tip_states}}, confirmed=True)
+        if not torch.allclose(v1, v2, rtol=1e-10) or not torch.allclose(g1, g2, rtol=1e-8, atol=1e-10):
+            raise Refuted("first (switching) evaluation: value %s / always-rescaled value %s; max gradient difference %.3g"
+                          % (v1.tolist(), v2.tolist(), float((g1 - g2).abs().max())), witness={"tip_states": use_tip_states},
+                          replay={"kind": "custom", "contract": "C12", "func": "replay_underflow_gradient", "args": {"tip_states": use_tip_states}}, confirmed=True)
+        return {"backend": "real autograd", "cases": 1, "statement": "switching evaluation: gradient finite and equal to the rescaled evaluation's (%d branch lengths)" % g1.numel()}
+    return Ob("C12.likelihood.underflow_switch[tip_states=%s]" % use_tip_states, "B", body,
+              clause="gradient = derivative of the reported value on the evaluation that switches to rescaling", funcs=FUNCS, timeout=300)
+
+
+def replay_underflow_gradient(args):
+    try:
+        ob_underflow_gradient(args["tip_states"]).fn()
+    except Refuted as e:
+        return False, e.detail
+    return True, "held"
+
+
+def _late_grad_world(requires_grad_first):
+    """real joint: reparameterised time tree (ratios + root height), constant coalescent with theta = exp(log_theta), tree-model Jacobian"""
+    import torchtree.evolution.coalescent as co
+    from torchtree.core.parameter import Parameter, TransformedParameter
+    from torchtree.distributions.joint_distribution import JointDistributionModel
+    from specs import treemodels
+    x = torch.tensor([0.5, 0.25, 3.0], dtype=torch.float64)
+    tm, _ = treemodels.build_reparam(((0, 1), (2, 3)), ["A", "B", "C", "D"], [0.0, 1.0, 0.0, 2.0], x, "ratios")
+    log_theta = Parameter("log_theta", torch.tensor([0.7], dtype=torch.float64))
+    theta = TransformedParameter("theta", log_theta, torch.distributions.ExpTransform())
+    coal = co.ConstantCoalescentModel("coal", theta, tm)
+    joint = JointDistributionModel("joint", [coal, tm, theta])
+    leaves = [tm._internal_heights, log_theta]
+    if requires_grad_first:
+        for p in leaves:
+            p.requires_grad = True
+    return joint, leaves
+
+
+def ob_late_requires_grad():
+    """evaluate, THEN enable gradients through the public setter, evaluate and back-propagate: every leaf gets the gradient a freshly built
+    graph gives (caches filled while a leaf had no gradient must not be served)"""
+    def body():
+        joint, leaves = _late_grad_world(False)
+        joint()
+        for p in leaves:
+            p.requires_grad = True
+        v = joint()
+        if not v.requires_grad:
+            raise Refuted("after enabling gradients on the leaves the joint density does not require grad (a cached value is served)", witness={},
+                          replay={"kind": "custom", "contract": "C12", "func": "replay_late_requires_grad", "args": {}}, confirmed=True)
+        v.sum().backward()
+        ref, rleaves = _late_grad_world(True)
+        rv = ref()
+        rv.sum().backward()
+        bad = []
+        for p, q in zip(leaves, rleaves):
+            if p.grad is None:
+                bad.append("%s.grad is None" % p.id)
+            elif not torch.allclose(p.grad, q.grad, rtol=1e-10, atol=1e-12):
+                bad.append("%s.grad = %s, fresh graph gives %s" % (p.id, p.grad.tolist(), q.grad.tolist()))
+        if bad or not torch.allclose(v, rv):
+            raise Refuted("evaluate -> enable gradients -> evaluate: " + "; ".join(bad or ["value differs"]), witness={"problems": bad},
+                          replay={"kind": "custom", "contract": "C12", "func": "replay_late_requires_grad", "args": {}}, confirmed=True)
+        return {"backend": "real autograd", "cases": len(leaves), "statement": "gradients enabled after a first evaluation reach every leaf and equal those of a fresh graph"}
+    return Ob("C12.joint.late_requires_grad", "B", body, clause="gradient = derivative of the reported value when gradients are enabled after a first evaluation", funcs=FUNCS)
+
+
+def replay_late_requires_grad(args):
+    try:
+        ob_late_requires_grad().fn()
+    except Refuted as e:
+        return False, e.detail
+    return True, "held"
+
+
 def obligations(tier, seed):
     import ast
     obs = []
+    obs.append(ob_underflow_gradient(False))
+    obs.append(ob_underflow_gradient(True))
+    obs.append(ob_late_requires_grad())
 
     def add(name, contract, factory, args, pick=None, **kw):
         kw.setdefault("max_paths", 20000)
